@@ -62,6 +62,8 @@ class SPARQLQueryHelper(object):
         r"SELECT[\s\(\)\$\?\a-z]*\{[^\}]*SELECT\s+((?:(?:[\?\$]\w+\s+)|(?:\*\s+))+)", flags=re.M | re.I
     )
     has_as_var_regex = re.compile(r"[^\w]+AS[\s]+[\$\?](\w+)", flags=re.M | re.I)
+    # IRIs and quoted strings: a '#' inside them does not start a comment
+    iri_or_string_regex = re.compile(r"<[^<>\"{}|^`\\\s]*>|\"(?:[^\"\\\n]|\\.)*\"|'(?:[^'\\\n]|\\.)*'")
     find_msg_subs = re.compile(r"({[\$\?]([^{}]+)})", flags=re.M)
 
     def __init__(self, shape, node, select_text, parameters=None, messages=None, deactivated=False):
@@ -243,13 +245,18 @@ class SPARQLQueryHelper(object):
         raise NotImplementedError("Cannot turn that kind of node into text.")
 
     def check_invalid_sparql(self, sparql_text, valuenode=None, extravars=None):
-        has_minus = self.has_minus_regex.search(sparql_text)
+        # The keyword screens treat everything after a '#' as a comment: blank out the inside of IRIs and strings
+        # first, so that <http://www.w3.org/2000/01/rdf-schema#label> does not hide the rest of its line.
+        screened_text = self.iri_or_string_regex.sub(
+            lambda m: m.group(0)[0] + "_" * (len(m.group(0)) - 2) + m.group(0)[-1], sparql_text
+        )
+        has_minus = self.has_minus_regex.search(screened_text)
         if has_minus:
             raise ValidationFailure("A SPARQL Constraint must not contain a MINUS clause.")
-        has_values = self.has_values_regex.search(sparql_text)
+        has_values = self.has_values_regex.search(screened_text)
         if has_values:
             raise ValidationFailure("A SPARQL Constraint must not contain a VALUES clause.")
-        has_service = self.has_service_regex.search(sparql_text)
+        has_service = self.has_service_regex.search(screened_text)
         if has_service:
             raise ValidationFailure("A SPARQL Constraint must not contain a federated query (SERVICE).")
         potentially_prebound_variables = {'this', 'shapesGraph', 'currentShape'}
